@@ -209,3 +209,58 @@ reg.add(Proc(
     },
     ensures=call_ensures,
 ))
+
+
+# ------------------------------------------------------------------ InterfaceClass._call_conform: the TypeError heuristic
+# conform(self) is an external call with three outcomes: a result, an exception that is no TypeError, a TypeError.  A TypeError
+# whose traceback has a single entry was raised by the call machinery itself (the object is a class, __conform__ an unbound
+# method): the interface behaves as though there were no __conform__.  Every other exception propagates.
+XT = z3.Function('raised_exception_is_a_TypeError', Int, z3.BoolSort())
+DEEP = z3.Function('traceback_has_more_than_one_entry', Int, z3.BoolSort())
+TB_MORE = z3.Const('a_further_traceback_entry', Obj)
+reg.axiom('a-traceback-entry-is-not-None', TB_MORE != NONE)
+
+
+def _conform_call(ex, node, st, vals):
+    log = st.heap.get('$log')
+    n = Length(log)
+    st.heap.set('$log', Concat(log, Unit(ev(K_CONFORM, vals[0].t, box(vals[1]), NONE))))
+    other = st.clone()
+    other.assume(z3.And(X(n), z3.Not(XT(n))))
+    ex.raise_(other, 'OtherError')
+    te = st.clone()
+    te.assume(z3.And(X(n), XT(n)))
+    ex.raise_(te, 'TypeError')
+    st.assume(z3.Not(X(n)))
+    return [(st, vobj(R(n)))]
+
+
+def _exc_info(ex, node, st):
+    """sys.exc_info(): only [2].tb_next is looked at -- whether the traceback of the exception being handled has a second entry"""
+    n = Length(st.heap.get('$log')) - 1
+    tb = z3.Const('traceback_of_the_handled_exception', Obj)
+    st.assume(tb != NONE)
+    st.heap.set('tb_next', z3.Store(st.heap.get('tb_next'), tb, z3.If(DEEP(n), TB_MORE, NONE)))
+    return [(st, V(SEQO, Concat(Unit(NONE), Unit(NONE), Unit(tb))))]
+
+
+FIELDS['tb_next'] = OBJ
+reg.fields['tb_next'] = OBJ
+
+
+def _cc_n0(c):
+    return L(c.h0('$log'))
+
+
+reg.add(Proc(
+    I + 'InterfaceClass._call_conform', [('self', OBJ), ('conform', OBJ)], source='interface.py:InterfaceClass._call_conform', result=OBJ,
+    opaque_calls={'conform': _conform_call}, calls={'sys.exc_info': _exc_info}, modifies=['$log', 'tb_next'],
+    raises={'OtherError': (lambda c: z3.And(X(_cc_n0(c)), z3.Not(XT(_cc_n0(c)))),
+                           lambda c: [('the-call-is-logged', c.h('$log') == Concat(c.h0('$log'), Unit(ev(K_CONFORM, c.a.conform, c.a.self, NONE))))]),
+            'TypeError': (lambda c: z3.And(X(_cc_n0(c)), XT(_cc_n0(c)), DEEP(_cc_n0(c))),
+                          lambda c: [('the-call-is-logged', c.h('$log') == Concat(c.h0('$log'), Unit(ev(K_CONFORM, c.a.conform, c.a.self, NONE))))])},
+    ensures=lambda c: [
+        ('conform-is-called-once-with-the-interface', c.h('$log') == Concat(c.h0('$log'), Unit(ev(K_CONFORM, c.a.conform, c.a.self, NONE)))),
+        ('its-result-or-None-for-a-TypeError-of-the-call-itself', c.res == z3.If(X(_cc_n0(c)), NONE, R(_cc_n0(c))))],
+))
+reg.assumptions.append('_call_conform: sys.exc_info()[2].tb_next is modelled by the oracle "the traceback of the handled TypeError has more than one entry"')
